@@ -106,14 +106,15 @@ theorem qInternal_spec {len : V3 α → α} (hlen : LenSpec len) {f t : V3 α} (
 /-- angle ≤ π/2 (`from^ · to^ ≥ 0`): orthonormal right-handed, takes the direction of `from` to the direction of `to` -/
 theorem rotationMatrixSpec_acute {len : V3 α → α} (hlen : LenSpec len) (teps : α) {fromDir toDir : V3 α}
     (hf : fromDir ≠ ⟨0, 0, 0⟩) (ht : toDir ≠ ⟨0, 0, 0⟩) (hd : 0 ≤ dot (nrm len fromDir) (nrm len toDir)) :
-    IsFrame (quatM44 (quatSetRotationSpec len teps fromDir toDir)) ∧
-      row3 (quatM44 (quatSetRotationSpec len teps fromDir toDir)) = ⟨0, 0, 0⟩ ∧
-      (nrm len fromDir).toVec ᵥ* rot3 (quatM44 (quatSetRotationSpec len teps fromDir toDir)) = (nrm len toDir).toVec := by
+    IsFrame (rotationMatrixSpec len teps fromDir toDir) ∧
+      row3 (rotationMatrixSpec len teps fromDir toDir) = ⟨0, 0, 0⟩ ∧
+      (nrm len fromDir).toVec ᵥ* rot3 (rotationMatrixSpec len teps fromDir toDir) = (nrm len toDir).toVec := by
   have huf := nrm_unit' hlen hf
   have hut := nrm_unit' hlen ht
   have hs := vadd_ne_zero_of_dot huf hut (by linarith)
   have e : quatSetRotationSpec len teps fromDir toDir = qInternal len (nrm len fromDir) (nrm len toDir) := by
     simp only [quatSetRotationSpec, if_pos hd]
+  unfold rotationMatrixSpec
   rw [e]
   obtain ⟨h1, h2⟩ := qInternal_spec hlen huf hut hs
   exact ⟨(quatM44_isFrame h1).1, (quatM44_isFrame h1).2, h2⟩
@@ -164,9 +165,9 @@ theorem quat_pure_apply {v : V3 α} (hv : dot v v = 1) (p : V3 α) :
 theorem rotationMatrixSpec_nearOpposite {len : V3 α → α} (hlen : LenSpec len) (teps : α) {fromDir toDir : V3 α}
     (hf : fromDir ≠ ⟨0, 0, 0⟩) (ht : toDir ≠ ⟨0, 0, 0⟩) (hd : dot (nrm len fromDir) (nrm len toDir) < 0)
     (hopp : dot (vadd (nrm len fromDir) (nrm len toDir)) (vadd (nrm len fromDir) (nrm len toDir)) ≤ (8 * teps) * (8 * teps)) :
-    IsFrame (quatM44 (quatSetRotationSpec len teps fromDir toDir)) ∧
-      row3 (quatM44 (quatSetRotationSpec len teps fromDir toDir)) = ⟨0, 0, 0⟩ ∧
-      (nrm len fromDir).toVec ᵥ* rot3 (quatM44 (quatSetRotationSpec len teps fromDir toDir))
+    IsFrame (rotationMatrixSpec len teps fromDir toDir) ∧
+      row3 (rotationMatrixSpec len teps fromDir toDir) = ⟨0, 0, 0⟩ ∧
+      (nrm len fromDir).toVec ᵥ* rot3 (rotationMatrixSpec len teps fromDir toDir)
         = (vneg (nrm len fromDir)).toVec := by
   have huf := nrm_unit' hlen hf
   have e : quatSetRotationSpec len teps fromDir toDir = ⟨0, qOppositeAxis len (nrm len fromDir)⟩ := by
@@ -176,6 +177,7 @@ theorem rotationMatrixSpec_nearOpposite {len : V3 α → α} (hlen : LenSpec len
   have hq : (⟨0, qOppositeAxis len (nrm len fromDir)⟩ : Quat α).r * (⟨0, qOppositeAxis len (nrm len fromDir)⟩ : Quat α).r
       + dot (⟨0, qOppositeAxis len (nrm len fromDir)⟩ : Quat α).v (⟨0, qOppositeAxis len (nrm len fromDir)⟩ : Quat α).v = 1 := by
     simp [hv1]
+  unfold rotationMatrixSpec
   rw [e]
   refine ⟨(quatM44_isFrame hq).1, (quatM44_isFrame hq).2, ?_⟩
   unfold quatM44
@@ -189,9 +191,9 @@ theorem rotationMatrixSpec_nearOpposite {len : V3 α → α} (hlen : LenSpec len
 /-- exactly opposite directions: `−from^ = to^`, so the half-turn takes `from^` to `to^` -/
 theorem rotationMatrixSpec_opposite {len : V3 α → α} (hlen : LenSpec len) (teps : α) {fromDir toDir : V3 α}
     (hf : fromDir ≠ ⟨0, 0, 0⟩) (ht : toDir ≠ ⟨0, 0, 0⟩) (hopp : vadd (nrm len fromDir) (nrm len toDir) = ⟨0, 0, 0⟩) :
-    IsFrame (quatM44 (quatSetRotationSpec len teps fromDir toDir)) ∧
-      row3 (quatM44 (quatSetRotationSpec len teps fromDir toDir)) = ⟨0, 0, 0⟩ ∧
-      (nrm len fromDir).toVec ᵥ* rot3 (quatM44 (quatSetRotationSpec len teps fromDir toDir)) = (nrm len toDir).toVec := by
+    IsFrame (rotationMatrixSpec len teps fromDir toDir) ∧
+      row3 (rotationMatrixSpec len teps fromDir toDir) = ⟨0, 0, 0⟩ ∧
+      (nrm len fromDir).toVec ᵥ* rot3 (rotationMatrixSpec len teps fromDir toDir) = (nrm len toDir).toVec := by
   have huf := nrm_unit' hlen hf
   have hneg : nrm len toDir = vneg (nrm len fromDir) := by
     generalize nrm len fromDir = f at hopp ⊢
@@ -217,8 +219,8 @@ theorem rotationMatrixSpec_opposite {len : V3 α → α} (hlen : LenSpec len) (t
 theorem rotationMatrixSpec_obtuse {len : V3 α → α} (hlen : LenSpec len) (teps : α) {fromDir toDir : V3 α}
     (hf : fromDir ≠ ⟨0, 0, 0⟩) (ht : toDir ≠ ⟨0, 0, 0⟩) (hd : dot (nrm len fromDir) (nrm len toDir) < 0)
     (hbig : (8 * teps) * (8 * teps) < dot (vadd (nrm len fromDir) (nrm len toDir)) (vadd (nrm len fromDir) (nrm len toDir))) :
-    IsFrame (quatM44 (quatSetRotationSpec len teps fromDir toDir)) ∧
-      row3 (quatM44 (quatSetRotationSpec len teps fromDir toDir)) = ⟨0, 0, 0⟩ := by
+    IsFrame (rotationMatrixSpec len teps fromDir toDir) ∧
+      row3 (rotationMatrixSpec len teps fromDir toDir) = ⟨0, 0, 0⟩ := by
   have huf := nrm_unit' hlen hf
   have hut := nrm_unit' hlen ht
   have hopp : vadd (nrm len fromDir) (nrm len toDir) ≠ ⟨0, 0, 0⟩ := by
@@ -259,6 +261,7 @@ theorem rotationMatrixSpec_obtuse {len : V3 α → α} (hlen : LenSpec len) (tep
     linarith
   have q1 := (qInternal_spec hlen huf huh (vadd_ne_zero_of_dot huf huh hfh)).1
   have q2 := (qInternal_spec hlen huh hut (vadd_ne_zero_of_dot huh hut hht)).1
+  unfold rotationMatrixSpec
   rw [e]
   exact quatM44_isFrame (quat_mul_unit q1 q2)
 
